@@ -173,6 +173,21 @@ func RunWorker(t *testing.T) {
 		enumMode(t, &job)
 	case "one":
 		oneMode(t, &job)
+	case "digests":
+		// determinism self-test: event-log digest of every (profile, index) pair
+		out := map[string]string{}
+		for _, prof := range job.Profiles {
+			for i := job.Start; i < job.Start+job.Count; i++ {
+				scn := Gen(prof, mix(job.SeedBase, uint64(i)), job.Thorough)
+				r, jd := Exec(t, scn)
+				vs := ""
+				for _, v := range jd.Violations {
+					vs += v.Prop + "/" + v.Sig + ";"
+				}
+				out[fmt.Sprintf("%s:%d", prof, i)] = fmt.Sprintf("%s steps=%d amb=%d %s", r.Sim.Digest(), r.Sim.Steps, r.Sim.Ambiguous, vs)
+			}
+		}
+		writeJSON(job.Out, out)
 	case "gen":
 		writeJSON(job.Out, map[string]any{"scenario": Gen(job.Profiles[0], job.SeedBase, job.Thorough)})
 	default:
